@@ -122,6 +122,8 @@ def check_text(text, strict, doc, files, labels):
             (f"{cls.__name__}(string=)", lambda: cls(string=text, strict=strict)),
             (f"{cls.__name__}(file=StringIO)", lambda: cls(file=io.StringIO(text), strict=strict)),
             (f"{cls.__name__}(file=iterator)", lambda: cls(file=iter(lines), strict=strict)),
+            # an iterator may yield empty strings among its lines (a filter that blanks lines out): they add nothing
+            (f"{cls.__name__}(file=iterator with an empty string among the lines)", lambda: cls(file=iter(lines[: len(lines) // 2] + [""] + lines[len(lines) // 2 :]), strict=strict)),
         ):
             same(R.observe(fn), e, name, text, strict)
             evals += 1
